@@ -1395,6 +1395,28 @@ def gen_smb(runner, tier, seed):
         for n_ in (range(0, len(base)) if tier != "quick" else range(0, len(base), 3)):
             pl.append(base[:n_])
     send_payloads(runner, "smb", pl, r, tier)
+    # the usual conversation: negotiate, then session setup(s), each NetBIOS message in its own segment
+    s = runner.session(cfg_plain(), "smb conversations on one flow")
+    flows = []
+    for i in range(24 if tier == "quick" else 400):
+        fam = i % 2
+        hdr = dict(mid=r.randrange(65536), uid=r.randrange(65536), tid=r.randrange(65536)) if fam == 0 else \
+            dict(message_id=r.randrange(1 << 62), session_id=r.randrange(1 << 62))
+        if fam == 0:
+            msgs = [smb1_negotiate(r.choice([[b"NT LM 0.12"], [b"LANMAN1.0", b"NT LM 0.12"], [b"PC NETWORK PROGRAM 1.0", b"LANMAN1.0", b"NT LM 0.12"]]), **hdr),
+                    smb1_session_setup(blob=rb(r, r.choice([2, 40, 74])), **hdr)]
+            extra = [smb1_session_setup(blob=rb(r, 40), **hdr), smb1_negotiate([b"NT LM 0.12"], flags=0x98), nbt(smb1_header(0x75) + b"\0\0\0"),
+                     smb1_negotiate([b"NT LM 0.12"], **hdr)]
+        else:
+            msgs = [smb2_negotiate(r.choice([[0x0202], [0x0202, 0x0210], [0x0311, 0x0302, 0x0210]]), **hdr), smb2_session_setup(blob=rb(r, r.choice([2, 40, 74])), **hdr)]
+            extra = [smb2_session_setup(blob=rb(r, 40), **hdr), smb2_negotiate([0x0202], flags=1), nbt(smb2_header(5) + struct.pack("<HH", 4, 0)),
+                     smb2_negotiate([0x0210], **hdr)]
+        for _ in range(r.choice([0, 1, 2])):
+            msgs.append(r.choice(extra))
+        if r.random() < 0.2:
+            msgs.insert(1, b"")
+        flows.append((r.choice([peer4(), peer6()]), 24000 + i, r.choice([445, 139, r.randrange(65536)]), r.randrange(1 << 32), msgs))
+    tcp_batch(s, flows)
 
 
 def gen_ssh_ghost(runner, tier, seed):
